@@ -147,7 +147,7 @@ static void attribute(const Desc& d, const Facts& f, const Plan& plan, const Wor
                     o.detail = std::string(beh(O) ? "implementation" : "model") + " consults / takes a further candidate for the same occurrence";
                     add(P, "C01");
                     if (f.nested) add(P, "C07");
-                    if (f.regions || B->kind == K_NT) add(P, "C06");
+                    add(P, "C06");      // one side goes on consulting candidates: the occurrence was offered to a region more (or less) than once
                     if (f.hierarchy_events) add(P, "C18");
                     if (B->occ == OCC_NONE) add(P, "C10");
                     if (f.pseudo) add(P, "C09");
@@ -209,7 +209,7 @@ static void attribute(const Desc& d, const Facts& f, const Plan& plan, const Wor
             o.detail = "transition selection differs (guards consulted / row taken / no_transition)";
             add(P, "C01");
             if (f.nested) add(P, "C07");
-            if (f.regions || O->kind == K_NT || E->kind == K_NT) add(P, "C06");
+            if (f.regions || f.nested || O->kind == K_NT || E->kind == K_NT) add(P, "C06");   // offering an occurrence to the regions of every active level
             if (f.hierarchy_events) add(P, "C18");
             if (occ_o == OCC_NONE) add(P, "C10");
             if (f.pseudo) add(P, "C09");
